@@ -7,7 +7,7 @@ import os
 import common
 from common import SPEC, WORK, ToolError, log, read_ndjson, run_harness, tlc, tlc_lines, write_ndjson, require_ok
 
-RUNNER = {"C01", "C02", "C03", "C04", "C05", "C06", "C07", "C08", "C09", "C10", "C20"}
+RUNNER = {"C01", "C02", "C03", "C04", "C05", "C06", "C07", "C08", "C09", "C10", "C20", "C18"}
 
 
 def _vector(harness_cmd, trace_tla, recs, cfg="Trace_Plain.cfg", extra_args=()):
